@@ -193,7 +193,13 @@ func (sm *SeatManager) getActiveSeats() []*Seat {
 
 func (sm *SeatManager) getPlayableSeats() []*Seat {
 
-	origSeats := sm.getNormalizeSeats(sm.dealer.ID)
+	// No dealer yet (before the first Next): start from the first seat
+	startID := 0
+	if sm.dealer != nil {
+		startID = sm.dealer.ID
+	}
+
+	origSeats := sm.getNormalizeSeats(startID)
 
 	seats := make([]*Seat, 0)
 	for _, s := range origSeats {
